@@ -51,6 +51,10 @@ type Evidence struct {
 
 // Write writes /verif/evidence/<id>.json.
 func Write(e *Evidence) error {
+	// A run that evaluated nothing has decided nothing: it must not leave a passing record behind.
+	if n, ok := asInt(e.Coverage["evaluations"]); ok && n < 1 && e.Violations == 0 {
+		return fmt.Errorf("HARNESS ERROR (no verdict): %s evaluated nothing (coverage.evaluations = 0)", e.PropertyID)
+	}
 	dir := filepath.Join(Root(), "evidence")
 	if err := os.MkdirAll(dir, 0o755); err != nil {
 		return err
@@ -60,6 +64,22 @@ func Write(e *Evidence) error {
 		return err
 	}
 	return os.WriteFile(filepath.Join(dir, e.PropertyID+".json"), append(b, '\n'), 0o644)
+}
+
+func asInt(v any) (int64, bool) {
+	switch x := v.(type) {
+	case int:
+		return int64(x), true
+	case int64:
+		return x, true
+	case int32:
+		return int64(x), true
+	case uint64:
+		return int64(x), true
+	case float64:
+		return int64(x), true
+	}
+	return 0, false
 }
 
 // Finding is an entry of known_findings.json.
